@@ -427,3 +427,38 @@ def c10_state(l3, machine, sidx, alloc, L, stats, timeout_ms=30000):
         d['samples'].append({'program': getattr(l3, 'label', '?'), 'state': sidx, 'chunk_len': L, 'abstract_paths': len(apaths), 'c_outcomes': len(outs),
                              'first_abstract_outcome': [apaths[0][1][1], apaths[0][1][2]] if apaths else None})
     return findings
+
+
+def c04_yield_state(l3, sidx, alloc, stats, timeout_ms=20000):
+    """C04, yield clause: from one control state, a 1-byte chunk driven with re-invocation after every yield code must stop yielding
+    (consume the byte or end) within N+1 re-invocations"""
+    d = stats.d
+    findings = []
+    solver = z3.Solver(); solver.set('timeout', timeout_ms)
+    data, inv0 = l3.layout.symbolic()
+    inv = stepcmp.pre_inv(l3, data, inv0, alloc)
+    b = z3.BitVec('chunk_0', 8)
+    mem = l3.image(sidx, data, alloc)
+    l3.add_chunk(mem, 1, symbols=[b])
+    n = len(l3.comp.post.states)
+    sx = {'queries': 0, 'solver_time': 0.0}
+    outs = drive(l3, mem, [], [], 0, 1, solver, inv, sx, 60 * (n + 4), n + 1)
+    d['queries'] += sx['queries']; d['solver_time'] += sx['solver_time']
+    d['obligations'] += 1
+    hit = False
+    for o in outs:
+        if o.kind != 'REINVOKE-UNWIND':
+            continue
+        solver.push(); solver.add(*inv, *o.pc)
+        r, mdl = symx.robust_check(solver); d['queries'] += 1
+        solver.pop()
+        if r == z3.sat:
+            hit = True
+            findings.append({'kind': 'c04-unwind', 'what': 'yield codes are returned over and over without the byte being consumed', 'detail': f'{n + 1} re-invocations at offset {o.off}',
+                             'pre': stepcmp.model_pre(l3, mdl, data, sidx, alloc), 'sym': 'yield', 'byte': mdl.eval(b, model_completion=True).as_long()})
+        elif r == z3.unknown:
+            d['inconclusive'].append(f"C04 yield {getattr(l3, 'label', '?')}@{sidx}")
+    if not hit:
+        d['discharged'] += 1
+        d['nontrivial'].append(f"c04yield:{getattr(l3, 'label', '?')}@{sidx}/{stepcmp._amask(alloc)}")
+    return findings
